@@ -32,10 +32,12 @@ def run_driver(exe, progfile, tracefile, env, tmo):
 _bad_re = re.compile(r'^<<"BAD", "(.*)">>$')
 
 
-def run_tlc_trace(tracefile):
-    r = vlib.tlc("CSDTrace", "CSDTrace.cfg", workers=1, env={"TRACE": tracefile}, timeout=3600, java_opts=["-Xmx3g", "-Xss16m"])
+def run_tlc_trace(tracefile, timeout=3600):
+    r = vlib.tlc("CSDTrace", "CSDTrace.cfg", workers=1, env={"TRACE": tracefile}, timeout=timeout, java_opts=["-Xmx3g", "-Xss16m"])
+    if r.rc == 124 and _deadline[0] is not None and time.time() > _deadline[0]:
+        raise BudgetExhausted(tracefile)
     if r.rc != 0:
-        r = vlib.tlc("CSDTrace", "CSDTrace.cfg", workers=1, env={"TRACE": tracefile}, timeout=3600, java_opts=["-Xmx3g", "-Xss16m"], quiet=False)
+        r = vlib.tlc("CSDTrace", "CSDTrace.cfg", workers=1, env={"TRACE": tracefile}, timeout=timeout, java_opts=["-Xmx3g", "-Xss16m"], quiet=False)
         if r.rc != 0:
             raise RuntimeError("CSDTrace failed to run on %s (rc=%s): a model failure, not a rejection" % (tracefile, r.rc))
     bad = []
@@ -44,6 +46,10 @@ def run_tlc_trace(tracefile):
         if m:
             bad.append(json.loads(m.group(1).replace('\\"', '"').replace("\\\\", "\\")))
     return bad, r.distinct or 0
+
+
+class BudgetExhausted(Exception):
+    """a trace validation was still running when the tier's time budget (plus a grace period) ran out"""
 
 
 BUDGET = {"quick": 1500, "thorough": int(os.environ.get("VERIF_THOROUGH_BUDGET_S", "1500"))}
@@ -84,7 +90,11 @@ def campaign(progs, variant, work, tag, tmo=10, extra_env=None):
         if _deadline[0] is not None and time.time() > _deadline[0]:
             return None
         st = run_driver(exe, f[0], f[1], env, tmo)
-        b, n = run_tlc_trace(f[1])
+        try:
+            # a validation may use what is left of the budget plus ten minutes; after that the shard counts as skipped
+            b, n = run_tlc_trace(f[1], 3600 if _deadline[0] is None else int(max(300, _deadline[0] - time.time() + 600)))
+        except BudgetExhausted:
+            return None
         if nsh > 16 and not b and not tag.startswith("C08"):
             os.unlink(f[1])                               # large campaigns keep only traces that carry rejections
         return st, b, n
